@@ -17,6 +17,7 @@ pub mod schemepush;
 pub mod close;
 pub mod hostile;
 pub mod nego;
+pub mod proto;
 
 pub fn run(args: &Args, log: &Log) -> Result<(), String> {
     match args.driver.as_str() {
@@ -38,6 +39,7 @@ pub fn run(args: &Args, log: &Log) -> Result<(), String> {
         "close" => close::run(args, log),
         "hostile" => hostile::run(args, log),
         "nego" => nego::run(args, log),
+        "proto" => proto::run(args, log),
         d => Err(format!("unknown driver {d}")),
     }
 }
